@@ -35,7 +35,26 @@ def build(case):
     return t, backing, build_ops
 
 
+def corpus():
+    """fixed shapes that the random generator only sometimes produces: a branch with exactly two hashed children (leaf +
+    leaf, leaf + extension), every single node removed in turn, and the writes that make the branch collapse onto its
+    last child (which must be READ, hence reported when it is the missing one)"""
+    out = []
+    for prune in (False, True):
+        for keys in ([b"\x12\x34", b"\x12\x56"], [b"\x12\x34", b"\x12\x56\x78", b"\x12\x56\x79"],
+                     [b"\x34", b"\x56"]):
+            writes = [("set", k, bytes([0x61 + i]) * 40, "meth") for i, k in enumerate(keys)]
+            m = {w[1]: w[2] for w in writes}
+            probes = [("del", keys[0], "meth"), ("del", keys[1], "item"), ("set", keys[0], b"", "meth"),
+                      ("set", keys[0][:1] + b"\x99", b"z" * 40, "meth"), ("get", keys[1], "meth")]
+            out.append({"prune": prune, "writes": writes, "batched_build": False, "m": m, "seed": 5 + len(keys),
+                        "long": None, "probes": probes, "all_subsets": True})
+    return out
+
+
 def probe_ops(case, rng, full, inside_batch):
+    if case.get("probes"):
+        return [tuple(p) for p in case["probes"]]
     keys = HX.related_keys(case["m"].keys())
     rng.shuffle(keys)
     keys = keys[:5]
@@ -71,14 +90,16 @@ def run_case(case, tier):
     for _ in range(2 if tier == "quick" else 6):
         if len(nodes) >= 2:
             subsets.append(rng.sample(nodes, rng.randint(2, len(nodes))))
-    if tier == "quick" and len(subsets) > 5:
+    if case.get("all_subsets"):
+        subsets = [[h] for h in nodes]
+    elif tier == "quick" and len(subsets) > 5:
         subsets = rng.sample(subsets, 5)
     runs = []
     bad = None
     stats = {"hashed": len(nodes), "retry_rounds": 0, "fail_writes": 0}
     for removed in subsets:
         t, backing, _ = build(case)
-        inside = rng.random() < 0.3
+        inside = rng.random() < 0.3 and not case.get("probes")
         probes = probe_ops(case, rng, full, inside)
         ops = list(build_ops) + [("drop", h) for h in removed] + [("state",)]
         pre = len(ops)
@@ -163,7 +184,7 @@ def check_report(case, op, out, removed, full, t, backing, last_state, stats, re
             # is merged with)
             ns = [x for b in op[1] for x in (b >> 4, b & 15)]
             cands = [ns[:i] for i in range(len(ns) + 1)]
-            if op[0] == "del":
+            if op[0] == "del" or op[2] == b"":          # set(key, b"") is a delete
                 cands += [ns[:i] + [n] for i in range(len(ns) + 1) for n in range(16)]
             if not any(on_path(full, bytes(t.root_hash), c, h) for c in cands):
                 return f"{op[0]}: the reported missing node {h.hex()[:8]} does not lie on the key's path"
@@ -265,7 +286,7 @@ def check(tier, seed):
     R.gate = C.proof_gate("C07")
     rng = random.Random(seed)
     n = 26 if tier == "quick" else 300
-    cases = [gen_case(rng, tier) for _ in range(n)]
+    cases = corpus() + [gen_case(rng, tier) for _ in range(n)]
     runs_all, outs_all, owner = [], [], []
     for ci, case in enumerate(cases):
         runs, bad, stats = run_case(case, tier)
